@@ -9,7 +9,7 @@ from ..model import AnalysisError, dotted, norm
 from ..report import Report
 from .. import sym
 from .common import must_pass
-from .symutil import S, all_of, any_lit, arg, has, is_, mentions, sh
+from .symutil import S, all_of, any_lit, arg, has, is_, mentions, sh, unobj
 
 EXPLANATION = (
     "SIB: Sequence.estimate_added_delay and Sequence._add obtain the next slot from the same function (_Schedule.make_next_pulse_slot, directly resp. through add_pulse, which forwards its parameters unchanged) "
@@ -95,7 +95,10 @@ def run(E: Engine, rep: Report, tier: str) -> dict:
         rep.check(ok, "GUARD", "make_next_pulse_slot|conflict-scan-iff-not-no-delay", "other channels are scanned iff protocol != 'no-delay'", f"the conflict scan is conditioned on {sh(l.cond)}", E.where(mn, l.node))
     # conflict test: the update of the start time happens iff the examined slot's targets overlap the new pulse's, or wait-for-all
     returned = {t[1] for t in sym.subterms(Sfad.ret) if t[0] == "loop"}  # loop-carried variables that reach the result
-    upd = [l for l in Sfad.logged("assign") if l.fn == fad.short and l.loops and l.target is not None and l.target[1] in returned and mentions(l.value, "fall_time")]
+    # (the per-channel scan may live in a private helper that *returns* the new start time: helpers are inlined, their
+    # logs carry the caller's path condition and loops)
+    upd = [l for l in Sfad.logged("assign") if l.loops and l.target is not None and l.target[1] in returned and mentions(l.value, "fall_time") and unobj(l.value)[0] not in ("loopexit", "loop", "ifexp")]
+    upd += [l for l in Sfad.logged("return") if l.loops and l.fn != fad.short and l.value is not None and mentions(l.value, "fall_time")]
     ok_conf = ok_skip = bool(upd)
     for l in upd:
         mc = None
@@ -108,7 +111,7 @@ def run(E: Engine, rep: Report, tier: str) -> dict:
     # the backwards scan of another channel may stop only where nothing earlier can matter: at a non-pulse slot that
     # ended 2*rise_time ago, at a pulse whose ramp-down is over, or at the conflicting pulse that set the start time;
     # a pulse that is still ramping down but does not conflict must not end the scan (an earlier one may conflict)
-    brk = [l for l in Sfad.logged("break") if l.fn == fad.short and len(l.loops) >= 2]
+    brk = [l for l in Sfad.logged("break") if len(l.loops) >= 2] + [l for l in Sfad.logged("return") if len(l.loops) >= 2 and l.fn != fad.short]
     ok_brk = bool(brk)
     bad_brk = None
     for l in brk:
@@ -133,7 +136,7 @@ def run(E: Engine, rep: Report, tier: str) -> dict:
     n_uses = 0
     kinds = set()
     for l in Sfad.log:
-        if l.fn != fad.short or l.kind not in ("test", "assign") or l.value is None:
+        if l.kind not in ("test", "assign", "return") or l.value is None or (l.kind == "return" and (l.fn == fad.short or not l.loops)):
             continue
         ends = [s for s in sym.subterms(l.value) if s[0] == "attr" and s[2] == "tf" and s[1][0] == "elem"]
         if not ends:
@@ -146,7 +149,7 @@ def run(E: Engine, rep: Report, tier: str) -> dict:
         same_ch = m is not None and _schedule_of_slot(m["Q_op"]) == m["Q_cs"]
         rep.check(m is not None and same_ch, "FLOW", f"_find_add_delay|op.tf+ramp-down|{kind}|{l.kind}", "the other channel's end is extended by the fall time (pulse) or 2*rise_time (non-pulse), evaluated for that channel and its EOM state",
                   f"`{sh(l.value)}` uses another channel's end without its own ramp-down (fall_time(<that channel>, in_eom_mode=<that channel's state>) for pulses, 2*rise_time otherwise): a pulse could start while the other is still ramping down", E.where(fad, l.node))
-    if n_uses < 3 or not {"test", "assign"} <= {k for _x, k in kinds}:
+    if n_uses < 3 or "test" not in {k for _x, k in kinds} or not ({"assign", "return"} & {k for _x, k in kinds}):
         rep.error(f"_find_add_delay: expected tests on and an update from the other channels' slot ends, found {sorted(kinds)}")
     # start = max(t0, *phase barriers)
     slot = [l for l in Smn.calls("_TimeSlot") if l.fn == mn.short][-1]
